@@ -19,6 +19,29 @@ class C13(CacheProp):
             "maps, policy.keyCosts and the expiry buckets plus IterValues/RemainingCost are compared with the model and "
             "with each other; non-trivial = an eviction, rejection or blocked call occurred")
 
+    def gen(self, rng, n, ctx):
+        cases = cachegen.gen_cases(rng, n - n // 12, ctx, self.profiles)
+        pd = ctx.probe_data or {"item_size": 56, "start": cachegen.START_DEFAULT}
+        g = cachegen.Gen(rng, pd)
+        for j in range(n // 12):
+            # a TTL key re-written (later / no TTL) while the sweep holds its old bucket, and an insert applied after its
+            # bucket was swept and then re-written: the sweep meets entries that are not expired - the accounting must
+            # still charge for them afterwards
+            bdur = rng.choice([1, 5])
+            h1, h2, h3 = cachegen.mix(700 + 3 * j), cachegen.mix(701 + 3 * j), cachegen.mix(702 + 3 * j)
+            ttl1 = rng.choice([1, 10 ** 9, bdur * 10 ** 9])
+            new_ttl = rng.choice([0, 3600 * 10 ** 9])
+            ops = [["set", h1, 10, 11, 30, ttl1], ["set", h2, 20, 12, 30, ttl1], ["tok"], ["tok"], ["dump"],
+                   ["tick", rng.choice([2, 6, 11]) * bdur * 10 ** 9],
+                   ["sweeprw", h1, 10, h2, 20, 102, 30, new_ttl], ["tok"], ["tok"], ["dump"], ["rem"], ["iter"]]
+            if rng.random() < 0.6:
+                ops += [["set", h3, 30, 13, 30, 10 ** 9], ["tick", 11 * bdur * 10 ** 9], ["sweep"], ["tok"], ["dump"],
+                        ["set", h3, 30, 14, 30, 3600 * 10 ** 9], ["tok"], ["dump"],
+                        ["tick", 3 * bdur * 10 ** 9], ["sweep"], ["tok"], ["dump"], ["rem"], ["iter"]]
+            cases.append(cachegen.Case("rw%d" % j, "cache", g.header(1000, 8, True, True, 0, bdur), ops,
+                                       tags=["profile:sweeprw"]))
+        return cases
+
     def oracle(self, case, il):
         fails = []
         if "profile:collide" in case.tags:
@@ -29,6 +52,8 @@ class C13(CacheProp):
         for st in tr.steps:
             op = st["op"]
             if op[0] == "set" and st["res"][:1] == ["true"]:
+                pending += 1
+            if op[0] == "sweeprw":
                 pending += 1
             if op[0] == "tok" and st["res"][:1] == ["idle"]:
                 pending = 0
